@@ -172,3 +172,33 @@ package version
 //@   ensures[success_installs_exactly_one_version] (result == nil) ==> calls(cast(vsFamily(vs, family), "FamilyVersion").appendVersion) == old(calls(cast(vsFamily(vs, family), "FamilyVersion").appendVersion)) + 1
 //@   ensures[the_record_carries_the_next_file_number] result == nil ==> (len(cast(editLog, "*editLog").logs) == old(len(cast(editLog, "*editLog").logs)) + 1 && typeis(cast(editLog, "*editLog").logs[old(len(cast(editLog, "*editLog").logs))], "*nextFileNumber"))
 //@ end
+
+//@ # ---- picking a level-0 compaction (C03): a level-1 file overlapped by several level-0 files is an input once ---
+//@ func version.NumberOfFilesInLevel
+//@   assume
+//@   modifies nothing
+//@ end
+//@ func version.GetFiles
+//@   assume
+//@   modifies nothing
+//@   ensures forall(i, 0, len(result), result[i] != nil)
+//@ end
+//@ func version.getOverlappingInputs
+//@   assume
+//@   modifies nothing
+//@   ensures forall(i, 0, len(result), result[i] != nil)
+//@ end
+//@ func FamilyVersion.GetID
+//@   modifies nothing
+//@ end
+//@ func version.PickL0Compaction
+//@   prop C03
+//@   requires v.fv != nil
+//@   modifies nothing
+//@   ensures[every_upper_level_input_appears_once] result != nil ==> forall(a, 0, len(result.levelUpInputs), forall(b, 0, a, result.levelUpInputs[a] != nil && result.levelUpInputs[b] != nil && result.levelUpInputs[a].fileNumber != result.levelUpInputs[b].fileNumber))
+//@   loop 1 invariant forall(i, 0, len(levelInputs), levelInputs[i] != nil) && levelUpInputMap != nil && all(k, "table.FileNumber", has(levelUpInputMap, k) ==> (levelUpInputMap[k] != nil && levelUpInputMap[k].fileNumber == k))
+//@   loop 2 invariant forall(i, 0, len(levelInputs), levelInputs[i] != nil) && levelUpInputMap != nil && all(k, "table.FileNumber", has(levelUpInputMap, k) ==> (levelUpInputMap[k] != nil && levelUpInputMap[k].fileNumber == k)) && forall(i, 0, len(upInputs), upInputs[i] != nil)
+//@   loop 3 invariant all(k, "table.FileNumber", has(levelUpInputMap, k) ==> (levelUpInputMap[k] != nil && levelUpInputMap[k].fileNumber == k))
+//@   loop 3 invariant forall(a, 0, len(levelUpInputs), levelUpInputs[a] != nil && visited(levelUpInputMap, levelUpInputs[a].fileNumber))
+//@   loop 3 invariant forall(a, 0, len(levelUpInputs), forall(b, 0, a, levelUpInputs[a].fileNumber != levelUpInputs[b].fileNumber))
+//@ end
